@@ -28,7 +28,23 @@ THOROUGH_BENCH = QUICK_BENCH + ['transfer-simple-goal.mm', 'perceptron-goal.mm',
                                 'transfer-largest-slice.mm', 'perceptron.mm', 'svm5.mm', 'transfer5000.mm']
 
 
+def regen_gen():
+    """regenerate coq/Gen/MMTranslate.v from the CURRENT translate.py / converter.py (fail closed)"""
+    import sys
+    sys.path.insert(0, os.path.join(C.VERIF, 'translators'))
+    import mm_translate
+    try:
+        text = mm_translate.generate(C.REPO)
+        C.write_if_changed(os.path.join(C.COQ, 'Gen', 'MMTranslate.v'), text)
+        return True, ''
+    except SystemExit as e:
+        return False, str(e)
+    except Exception as e:  # noqa: BLE001
+        return False, f'mm_translate: {e!r}'
+
+
 def setup():
+    regen_gen()
     build_model()
 
 
@@ -157,6 +173,41 @@ def gen_cases(seed, n, n_mut):
                 src = db.text(lambda l: texts[l])
                 cases.append(mk_case(f'gen{i}:mut-{how}', src, target.label, 'mutant', db, proofs, dict(info, layout='mutant:' + how)))
     return cases
+
+
+def big_marked_case(seed):
+    """one long derivation whose compressed proof has more than 120 marked steps, so that step numbers need three letters
+    (the two-letter range ends at 120): exercises convert_to_number beyond 120 inside C16's own tie"""
+    rng = C.rng_for(seed, f'{CID}:big')
+    V, A, imp = G.V, G.A, G.imp
+    db = G.Database()
+    db.vars = ['ph0', 'ph1', 'ph2']
+    for v in db.vars:
+        db.items.append(('f', v + '-is-pattern', v))
+    db.consts = ['\\k0']
+    p0, p1, p2 = V('ph0'), V('ph1'), V('ph2')
+    ctor = G.Assertion('imp-is-pattern', '#Pattern', [imp(p0, p1)])
+    k0 = G.Assertion('k0-is-pattern', '#Pattern', [A('\\k0')])
+    pr1 = G.Assertion('proof-rule-prop-1', '|-', [imp(p0, imp(p1, p0))])
+    mp = G.Assertion('proof-rule-mp', '|-', [p1], ess=[('proof-rule-mp.0', imp(p0, p1)), ('proof-rule-mp.1', p0)])
+    for a in (ctor, k0, pr1, mp):
+        db.items.append(('a', a))
+    c = A('\\k0')
+    node = G.Node(pr1, {'ph0': c, 'ph1': p0}, [])
+    for i in range(125):
+        b = rng.choice([c, p0, imp(p0, c), imp(c, p0)])
+        n1 = G.Node(pr1, {'ph0': node.concl, 'ph1': b}, [])
+        node = G.Node(mp, {'ph0': node.concl, 'ph1': imp(b, node.concl)}, [n1, node])
+    target = G.Assertion('goal', '|-', [node.concl])
+    db.items.append(('p', target, None))
+    tree = G.rpn_tree(db, node)
+    pl, nums = G.compress(db, target, tree, 'z', rng)
+    proofs = {'goal': (pl, nums)}
+    src = db.text(lambda l: G.proof_text(pl, nums, rng))
+    c16 = mk_case('big:z', src, 'goal', 'generated', db, proofs,
+                  dict(layout='z', nvars=len(target.vars()), nsteps=len(nums), nz=nums.count(0), max_number=max(nums), uses=['big']))
+    c16['group'] = 'big'
+    return c16
 
 
 def file_cases(tier):
@@ -436,7 +487,12 @@ def run(tier, seed):
     n = 150 if tier == 'quick' else 2500
     n_mut = 60 if tier == 'quick' else 1200
 
+    ok_tr, tr_msg = regen_gen()
     P = R.proof_stage()
+    if not ok_tr:
+        P['ok'] = False
+        P['log'] = 'translator failed closed: ' + tr_msg
+        P['discharged'] = 0      # no model could be regenerated from the current source: nothing is proved about it
     proof_broken = not P['ok']
 
     ok, log, mlref = build_model()
@@ -446,7 +502,7 @@ def run(tier, seed):
                     {'no_failing_input_found': True, 'theorem_or_correspondence': 'build', 'log': (log or '') + (rerr or '')})
         return R.finish(level='proof', trusted_base=TRUSTED)
 
-    cases = file_cases(tier) + gen_cases(seed, n, n_mut)
+    cases = file_cases(tier) + [big_marked_case(seed)] + gen_cases(seed, n, n_mut)
     mismatches, failures = evaluate(R, cases, mlref, rsref, tier)
 
     broken = proof_broken or bool(mismatches)
@@ -464,8 +520,10 @@ def run(tier, seed):
             R.sample(dict(name=c['name'], target=c['target'], info=c['info'], proof_bytes=len(c['impl']['plain'][2]) // 2,
                           src=c['src'][-400:]))
     if proof_broken and not R.violations:
-        R.violation('proof-broken', 'Coq proof stage failed',
-                    {'no_failing_input_found': True, 'theorem_or_correspondence': f'Props/{CID}.v', 'log': P['log']})
+        R.violation('proof-broken', 'Coq proof stage failed (generated Gen/MMTranslate.v no longer agrees with the model, or the translator '
+                    'failed closed)',
+                    {'no_failing_input_found': True, 'theorem_or_correspondence': f'Props/{CID}.v / MM16/GenMMTranslateAgree.v',
+                     'log': P['log'][-3000:]})
     if mismatches and not R.violations:
         R.violation('correspondence-broken', 'model and implementation disagree',
                     {'no_failing_input_found': True, 'theorem_or_correspondence': 'MM16 model vs metamath.translate / independent verifier / Rust',
@@ -484,6 +542,8 @@ def run(tier, seed):
 
 
 TRUSTED = C.TRUSTED_COMMON + [
+    'translators/mm_translate.py (Python-ast -> Gallina, statement level, fail closed) and coq/MM16/GenPrims.v (hand-written meaning of the '
+    'interpreter / converter / list / dict primitives the translated statements call); ProofExp.execute_full skeleton and symbol numbering are glue',
     'MM16 models abstract Metamath expressions to the parse trees of metamath/parser.py (token-level parsing is C17); '
     '$c/$v/$d are not modelled; compressed-proof letters are decoded by the harness (codec is C15)',
     'StatefulInterpreter bookkeeping is modelled by the checker semantics of the emitted instructions (C04 ties the two)',
